@@ -25,7 +25,11 @@ ApiCycle(i) ==
 ApiUpdate ==
   /\ Step /\ UNCHANGED ta
   /\ ev' = [op |-> "update", before |-> Sq(ta), awake |-> Sq([t \in Trees |-> IF ta[t] < 0 THEN 1 ELSE 0]),
-            n |-> Cardinality(AwakeSet(ta))]
+            n |-> Cardinality(AwakeSet(ta)),
+            \* mjData.body_awake of the synthetic model: world (static), one body per tree, then the mocap body,
+            \* its jointless child and grandchild (all three count as awake: mjS_AWAKE = 1, mjS_STATIC = -1)
+            body |-> <<-1>> \o Sq([t \in Trees |-> IF ta[t] < 0 THEN 1 ELSE 0])
+                     \o [i \in 1..3 |-> IF BodyClass(<<Mocap, Carried, Carried2>>[i]) = "mocap-carried" THEN 1 ELSE -1]]
 
 Next == \/ \E i \in Trees, wv \in WakeVals : ApiWake(i, wv)
         \/ \E i \in -1..NT : ApiCycle(i)
